@@ -291,4 +291,67 @@ example : (({} : WS).writeNbits 8 165 >>= fun w => w.writeUint 1 >>= fun w => w.
 
 end Seek
 
+/-! ## byte strings -/
+
+theorem nbitsOf_length (n : Nat) : ∀ j, (nbitsOf n j).length = j := by
+  intro j; induction j with
+  | zero => rfl
+  | succ i ih => simp [nbitsOf, ih]
+
+theorem bitLength_byte (b : Nat) (h : b < 256) : bitLength (b : Int) ≤ 8 := by
+  unfold bitLength
+  split
+  · omega
+  · rename_i hb
+    have hb' : b ≠ 0 := by intro e; apply hb; simp [e]
+    have : Nat.log2 b < 8 := (Nat.log2_lt hb').2 (by simpa using h)
+    simp only [Int.natAbs_natCast]
+    omega
+
+theorem write_byte_free (o : List Bool) (b : Nat) (h : b < 256) :
+    Writer.writeNbits { out := o } 8 (b : Int) = .ok { out := o ++ nbitsOf b 8 } := by
+  unfold Writer.writeNbits
+  have hb := bitLength_byte b h
+  have : ¬ ((b : Int) < 0 ∨ bitLength (b : Int) > (8 : Int)) := by omega
+  simp only [this, if_false, Int.toNat_natCast]
+  rw [writeBits_free _ _ rfl]
+  rfl
+
+theorem write_bytes_fold : ∀ (bs : List Nat) (o : List Bool), (∀ b ∈ bs, b < 256) →
+    bs.foldlM (fun (w : Writer) (b : Nat) => w.writeNbits 8 (b : Int)) ({ out := o } : Writer) =
+      .ok { out := o ++ bs.flatMap (fun b => nbitsOf b 8) }
+  | [], o, _ => by simp [List.foldlM]; rfl
+  | b :: bs, o, h => by
+    rw [List.foldlM_cons, write_byte_free o b (h b List.mem_cons_self)]
+    simp only [bind, Except.bind]
+    rw [write_bytes_fold bs _ (fun x hx => h x (List.mem_cons_of_mem _ hx))]
+    simp [List.flatMap_cons, List.append_assoc]
+
+/-- **write_bytes**: a byte string no longer than `n` is written byte by byte, most significant bit first, and
+    zero-padded on the right to exactly `n` bytes; a longer one is refused -/
+theorem bytes_written (n : Nat) (bs : List Nat) (hb : ∀ b ∈ bs, b < 256) (pre : List Bool) :
+    (bs.length ≤ n →
+      ∃ bits, bits.length = 8 * n ∧ bits = (bs ++ List.replicate (n - bs.length) 0).flatMap (fun b => nbitsOf b 8) ∧
+        Writer.writeBytes { out := pre } n bs = .ok { out := pre ++ bits }) ∧
+    (n < bs.length → Writer.writeBytes { out := pre } n bs = .error .outOfRange) := by
+  constructor
+  · intro hl
+    refine ⟨_, ?_, rfl, ?_⟩
+    · have : ∀ (l : List Nat), (l.flatMap (fun b => nbitsOf b 8)).length = 8 * l.length := by
+        intro l; induction l with
+        | nil => rfl
+        | cons a l ih => simp [List.flatMap_cons, nbitsOf_length, ih]; omega
+      rw [this]; simp; omega
+    · unfold Writer.writeBytes
+      rw [if_neg (by omega)]
+      apply write_bytes_fold
+      intro b hbm
+      rcases List.mem_append.1 hbm with h | h
+      · exact hb b h
+      · have := List.eq_of_mem_replicate h; omega
+  · intro hl
+    unfold Writer.writeBytes
+    rw [if_pos hl]
+
+
 end VC2.Props.C20
